@@ -29,12 +29,23 @@ Gen(n, S, mws, shared, kfail, mss) ==
                   : sz \in [1..n -> S], ob \in (IF shared THEN {Ident(n), Shared(n)} ELSE {Ident(n)}) }
     : Consistent(r.size, r.obj) }
 
+\* explicit size vectors
+GenV(vecs, mws, kfail, mss) ==
+  UNION { { Raw(sz, Ident(Len(sz)), fl, mw, ms) : fl \in Fails(Ident(Len(sz)), kfail), mw \in mws, ms \in mss } : sz \in vecs }
+
+QSingle == Gen(3, {1, Cap, Cap + 1}, {2}, TRUE, 1, {0})
+           \cup GenV({<<1, Cap, Cap + 1>>, <<Cap + 1, Cap + 1, 1>>, <<Cap, Cap, 1>>}, {3}, 1, {0})
+QShard  == GenV({<<1, 1, Cap + 1>>, <<Cap + 1, 1, Cap + 1>>, <<1, Cap + 1, 1>>}, {2, 6}, 1, {Cap + 1})
+           \cup {Raw(<<Cap + 1, 1, Cap + 1>>, Shared(3), {}, 2, Cap + 1), Raw(<<1, Cap, 1>>, Shared(3), {1}, 6, Cap)}
+QFour   == GenV({<<Cap + 1, 1, 2 * Cap, Cap>>}, {3}, 1, {0})
+
 Configs ==
-  CASE Family = "tiny"    -> Gen(3, {1, Cap, Cap + 1}, {2}, TRUE, 1, {0})
-    [] Family = "single3" -> Gen(3, SizeSet, {2, 3}, TRUE, 1, {0})
-    [] Family = "single4" -> Gen(4, SizeSet, {2, 3}, TRUE, 1, {0})
-    [] Family = "shard3"  -> Gen(3, SizeSet \ {0}, {2, 4, 6}, TRUE, 1, {Cap + 1, 2 * Cap})
-    [] Family = "shard4"  -> Gen(4, SizeSet \ {0}, {2, 4, 6}, TRUE, 1, {2 * Cap, 2 * Cap + 1})
+  CASE Family = "quick"    -> QSingle \cup QShard \cup QFour
+    [] Family = "live"     -> Gen(3, {1, Cap, Cap + 1}, {2}, TRUE, 1, {0}) \cup QShard
+    [] Family = "single3"  -> Gen(3, SizeSet, {2, 3}, TRUE, 1, {0})
+    [] Family = "shard3"   -> Gen(3, SizeSet \ {0}, {2, 6}, TRUE, 1, {Cap + 1, 2 * Cap})
+    [] Family = "four"     -> Gen(4, {1, Cap + 1}, {3}, TRUE, 1, {0})
+                              \cup GenV({<<Cap + 1, 1, 2 * Cap, Cap>>, <<0, Cap, Cap, 1>>, <<2 * Cap, Cap + 1, Cap + 1, 1>>}, {2, 3}, 1, {0, 2 * Cap})
 
 MCInit == \E raw \in Configs : InitFor(MkCfg(raw))
 MCSpec == MCInit /\ [][Next]_vars
